@@ -1352,6 +1352,13 @@ func (p *Parser) evaluateParams(ctx context) ([]Variable, error) {
 		if exists {
 			return params, fmt.Errorf("scope already contains a variable with the name %s", name)
 		}
+
+		// Make sure the function has no other parameter with the same name.
+		for _, param := range params {
+			if param.Name() == name {
+				return params, p.atError(fmt.Sprintf("parameter %s has already been defined", name), nameToken)
+			}
+		}
 		valueType, err := p.evaluateValueType()
 
 		if err != nil {
